@@ -146,7 +146,7 @@ def k_int(draw):
 
 
 def cases():
-    return st.one_of(k_codec(), k_codec(), k_codec(), k_randstr(), k_money(), k_int())
+    return st.one_of(k_codec(), k_codec(), k_codec(), k_randstr(), k_money(), k_int(), k_int())
 
 
 # ----------------------------------------------------------------------------------------------------------------
@@ -299,31 +299,32 @@ def c_money(sut, ex, c):
         c.expect(not p["ok"], "c48.money-range", "amount outside 0..MAX_MONEY accepted", n=n, s=f, reply=p)
     # grammar
     s, mut = ex["s"], ex["mut"]
-    base_ok = re.fullmatch(r"\d{0,10}(\.\d{0,8})?", s) is not None and s != ""
+    forced_bad = False
     if mut == "ws":
         s = ex["wsl"] + s + ex["wsr"]
     elif mut == "ws_mid" and len(s) >= 2:
         k = 1 + ex["pos"] % (len(s) - 1)
-        s, base_ok = s[:k] + " " + s[k:], False
+        s, forced_bad = s[:k] + " " + s[k:], True
     elif mut == "sign":
-        s, base_ok = "+-"[ex["pos"] % 2] + s, False
+        s, forced_bad = "+-"[ex["pos"] % 2] + s, True
     elif mut == "nul":
         k = ex["pos"] % (len(s) + 1)
-        s, base_ok = s[:k] + "\x00" + s[k:], False
+        s, forced_bad = s[:k] + "\x00" + s[k:], True
     elif mut == "junk":
         k = ex["pos"] % (len(s) + 1)
-        s, base_ok = s[:k] + "x,e-_"[ex["pos"] % 5] + s[k:], False
+        s, forced_bad = s[:k] + "x,e-_"[ex["pos"] % 5] + s[k:], True
     elif mut == "twodots":
-        s, base_ok = s + ".", base_ok and "." not in s
+        s = s + "."
     elif mut == "exp":
-        s, base_ok = s + "e2", False
+        s, forced_bad = s + "e2", True
     else:
         mut = "none"
+    # grammar fixed by the unit tests (util_ParseMoney): surrounding whitespace ignored; "." "0." ".5" "5." are amounts; <= 8 decimals
+    core = s.strip(WS)
     val = None
-    if base_ok:
-        core = s.strip(WS)
+    if not forced_bad and core != "" and re.fullmatch(r"\d{0,10}(\.\d{0,8})?", core):
         whole, _, frac = core.partition(".")
-        val = int(whole or "0") * COIN + int((frac + "0" * 8)[:8] or "0")
+        val = int(whole or "0") * COIN + int((frac + "0" * 8)[:8])
         if val > MAX_MONEY:
             val = None
     p = sut.call("money", dir="parse", str_hex=s.encode("latin-1"))
@@ -380,8 +381,6 @@ def c_int(sut, ex, c):
         lo, hi = INT_TYPES["i32" if t == "atoi32" else "i64"]
         core = s.strip(WS)
         mm = re.match(r"(\+(?!-)|-)?([0-9]+)", core) if not core.startswith("+-") else None
-        if "\x00" in s and mm is not None and mm.end() < len(core) and False:
-            mm = mm
         want = 0
         if mm:
             v = int(mm.group(2)) * (-1 if mm.group(1) == "-" else 1)
